@@ -125,9 +125,6 @@ func checkC01(run *mon.Run, rng *mon.Rand, thorough bool) {
 		run.Declare(c, 50)
 	}
 	c01ManyBridges(run, rng.Split())
-	for k := 0; k < 6; k++ {
-		c01SameLeafInLaterOutputs(run, rng.Split())
-	}
 	hist := pick(thorough, 24, 400)
 	steps := pick(thorough, 250, 500)
 	kinds := map[string]int{}
@@ -163,6 +160,10 @@ func checkC01(run *mon.Run, rng *mon.Rand, thorough bool) {
 			}
 			run.Sample(map[string]interface{}{"history": h, "first_steps": w.log[:n]})
 		}
+	}
+	// after the histories, so that their random streams are the ones every earlier run of this check used
+	for k := 0; k < 6; k++ {
+		c01SameLeafInLaterOutputs(run, rng.Split())
 	}
 	for k, v := range kinds {
 		run.Counters["feature."+k] = v
